@@ -14,6 +14,20 @@
     the current trace call is kept per trace ([tie_current_call_per_trace]); a command loop
     entered outside a trace call of the current trace is refused ([tie_stray_cmdloop_refused]).
 
+    LABELS.  [sim] / [tie_same_stream] is a genuine simulation over the regenerated trees; the states
+    [K_*] used by its invariant are `Eval vm_compute` of the interpreter itself (self-referential: the
+    content is the equality of the two streams, not the control points).  [tie_counters_per_run] is
+    reflexivity on facts computed by the translator, which also drive the interpreter.  The translator
+    additionally PINS source shapes that no theorem speaks about (listed in harness/props/c09.py).
+    EXCEPTIONS.  The interpreter behind [sim] raises nothing but an explicit `raise` (caught by the
+    `try/except` of that name) and a failing `assert`; `try: a finally: b` is a-then-b there.
+    [tie_end_in_finally_*] and [tie_handler_removes_in_finally] run each generator-based hook on its own
+    with an exception THROWN INTO it at its first yield ([gexec]); removing or dedenting any of the four
+    try/finally blocks, or the try/except of CustomizedPdb.cmdloop, changes the generated term and breaks
+    one of these theorems (resp. [tie_stray_cmdloop_refused]).  Not covered: exceptions raised by a hook's
+    own statements, by the entry of a later-stacked context manager, by hook.prompt; KeyboardInterrupt
+    through catch() in _context; the unwinding order of apluggy's stack (trusted).
+
     Method.  The dicts and sets of the plugins are keyed by the trace number or by the task.
     Part A (locality) shows once and for all, for the interpreter, that a step of actor i which only
     looks at / writes entries under its own keys (the interpreter logs them) runs exactly as it
@@ -29,7 +43,7 @@ Open Scope Z_scope.
 (** ================================================================== names of the dicts / sets *)
 Fixpoint expr_maps (e : expr) : list string :=
   match e with
-  | EField a _ | ENot a => expr_maps a
+  | EField a _ | ENot a | EIsNone a => expr_maps a
   | EMk _ fs => flat_map (fun p => match p with (_, a) => expr_maps a end) fs
   | ETuple es => flat_map expr_maps es
   | EMapGet m k | EMapIdx m k | EIn k m => m :: expr_maps k
@@ -48,6 +62,8 @@ Fixpoint stmt_maps (s : stmt) : list string :=
   | SIf c a b => expr_maps c ++ stmt_maps a ++ stmt_maps b
   | SMapSet m k v => m :: expr_maps k ++ expr_maps v
   | SMapDel m k | SSetAdd m k | SSetRemove m k => m :: expr_maps k
+  | SAssertEq a b => expr_maps a ++ expr_maps b
+  | SAssertTrue e => expr_maps e
   | _ => []
   end.
 
@@ -70,7 +86,17 @@ Section Locality.
 Variables (i : nat) (t : Z).
 
 Definition own (k : key) : Prop := k = KTask i \/ k = KNum t.
-Definition ownp (p : string * key) : Prop := In (fst p) NAMES /\ own (snd p).
+Definition ownk (p : string * key) : Prop := In (fst p) NAMES /\ own (snd p).
+(** a log entry is fine: an own entry of a known dict / set; an assert that holds *)
+Definition ownp (e : lentry) : Prop :=
+  match e with
+  | LK m k => In m NAMES /\ own k
+  | LEq a b => veqb a b = true
+  | LTrue v => truthy v = Some true
+  end.
+
+Lemma ownp_lks l : Forall ownp (lks l) -> Forall ownk l.
+Proof. unfold lks. induction l as [ | [m k] l IH]; simpl; intros H; constructor; inversion H; subst; auto. Qed.
 Definition uniform (L : store) : Prop := forall m k k', keqk k k' = true -> L m k = L m k'.
 Definition agree (st L : store) : Prop := forall m k, In m NAMES -> own k -> st m k = L m k.
 Definition frame (st st' : store) : Prop := forall m k, ~ (In m NAMES /\ own k) -> st' m k = st m k.
@@ -128,7 +154,7 @@ Qed.
 (** [eval] and [ekeys] see the same thing in both stores when the entries looked at are own entries *)
 Local Opaque hook_exprs.
 Lemma eval_agree r st L at_ : agree st L -> forall n e x,
-  Forall ownp (ekeys n (mkC r i L at_) e x) ->
+  Forall ownk (ekeys n (mkC r i L at_) e x) ->
   eval n (mkC r i st at_) e x = eval n (mkC r i L at_) e x /\
   ekeys n (mkC r i st at_) e x = ekeys n (mkC r i L at_) e x.
 Proof.
@@ -165,6 +191,7 @@ Proof.
     destruct (to_key (eval n (mkC r i L at_) e x)) as [kk | ]; [ | split; reflexivity].
     inversion H2 as [ | ? ? [Hm Hk] _]; subst. simpl in Hm, Hk. rewrite (Ha _ _ Hm Hk). split; reflexivity.
   - (* ENot *) destruct (IH _ _ Hf) as [E1 E2]. rewrite E1, E2. split; reflexivity.
+  - (* EIsNone *) destruct (IH _ _ Hf) as [E1 E2]. rewrite E1, E2. split; reflexivity.
   - (* ELet *)
     apply Forall_app in Hf. destruct Hf as [H1 H2]. destruct (IH _ _ H1) as [E1 E2]. rewrite E1, E2.
     destruct (IH _ _ H2) as [E3 E4]. rewrite E3, E4. split; reflexivity.
@@ -184,13 +211,16 @@ Proof. intros H. apply Forall_app in H. tauto. Qed.
 Local Opaque eval ekeys EFUEL.
 Lemma silent_agree r ct cc cp at_ st L a o rest a' ct' cc' cp' L' at' l :
   agree st L -> uniform L ->
-  silent keqk r i (mkSh ct cc cp L at_) a o rest = Some (a', mkSh ct' cc' cp' L' at', l) ->
+  silent keqk false r i (mkSh ct cc cp L at_) a o rest = Some (a', mkSh ct' cc' cp' L' at', l) ->
   Forall ownp l ->
-  exists st', silent key_eqb r i (mkSh ct cc cp st at_) a o rest = Some (a', mkSh ct' cc' cp' st' at', l) /\
+  exists st', silent key_eqb true r i (mkSh ct cc cp st at_) a o rest = Some (a', mkSh ct' cc' cp' st' at', l) /\
               agree st' L' /\ uniform L' /\ frame st st'.
 Proof.
   intros Ha Hu Hs Hl. unfold silent, ctx_of in *. cbn [sh_st sh_attrs sh_ct sh_cc sh_cp] in *.
-  pose proof (eval_agree r st L at_ Ha EFUEL (ia_env a)) as EA.
+  assert (EA : forall x, Forall ownp (lks (ekeys EFUEL (mkC r i L at_) (ia_env a) x)) ->
+               eval EFUEL (mkC r i st at_) (ia_env a) x = eval EFUEL (mkC r i L at_) (ia_env a) x /\
+               ekeys EFUEL (mkC r i st at_) (ia_env a) x = ekeys EFUEL (mkC r i L at_) (ia_env a) x).
+  { intros x Hx. apply (eval_agree r st L at_ Ha EFUEL (ia_env a)). apply ownp_lks. exact Hx. }
   destruct o; try discriminate Hs.
   - (* OLet *) inversion Hs; subst. destruct (EA _ Hl) as [E1 E2]. rewrite E1, E2.
     exists st. repeat split; auto using frame_refl.
@@ -201,7 +231,7 @@ Proof.
     pose proof (Forall_app_l _ _ _ Hl) as H1. pose proof (Forall_app_r _ _ _ Hl) as H23.
     pose proof (Forall_app_l _ _ _ H23) as H2. pose proof (Forall_app_r _ _ _ H23) as H3.
     destruct (EA _ H1) as [E1 E2]. destruct (EA _ H2) as [E3 E4]. rewrite E1, E2, E3, E4, Ek.
-    inversion H3 as [ | ? ? [Hm Hk] _]; subst. simpl in Hm, Hk.
+    inversion H3 as [ | ? ? Hmk _]; subst. cbn [ownp] in Hmk. destruct Hmk as [Hm Hk].
     eexists. split; [reflexivity | ]. unfold set_st; simpl.
     repeat split; auto using agree_upd, uniform_upd, frame_upd.
   - (* OMapDel *)
@@ -210,11 +240,24 @@ Proof.
     inversion Hs; subst. clear Hs.
     pose proof (Forall_app_l _ _ _ Hl) as H1. pose proof (Forall_app_r _ _ _ Hl) as H3.
     destruct (EA _ H1) as [E1 E2]. rewrite E1, E2, Ek.
-    inversion H3 as [ | ? ? [Hm Hk] _]; subst. simpl in Hm, Hk.
+    inversion H3 as [ | ? ? Hmk _]; subst. cbn [ownp] in Hmk. destruct Hmk as [Hm Hk].
     rewrite (Ha _ _ Hm Hk), El.
     eexists. split; [reflexivity | ]. unfold set_st; simpl.
     repeat split; auto using agree_upd, uniform_upd, frame_upd.
   - (* OSetAttr *) inversion Hs; subst. destruct (EA _ Hl) as [E1 E2]. rewrite E1, E2.
+    exists st. repeat split; auto using frame_refl.
+  - (* OAssertEq: logged only on the left; evaluated on the right, and the log says it holds *)
+    cbn [andb] in Hs. inversion Hs; subst. clear Hs.
+    pose proof (Forall_app_l _ _ _ Hl) as H1. pose proof (Forall_app_r _ _ _ Hl) as H23.
+    pose proof (Forall_app_l _ _ _ H23) as H2. pose proof (Forall_app_r _ _ _ H23) as H3.
+    destruct (EA _ H1) as [E1 E2]. destruct (EA _ H2) as [E3 E4]. rewrite E1, E2, E3, E4.
+    inversion H3 as [ | ? ? Hv _]; subst. cbn [ownp] in Hv. rewrite Hv. cbn [andb negb].
+    exists st. repeat split; auto using frame_refl.
+  - (* OAssertTrue *)
+    cbn [andb] in Hs. inversion Hs; subst. clear Hs.
+    pose proof (Forall_app_l _ _ _ Hl) as H1. pose proof (Forall_app_r _ _ _ Hl) as H3.
+    destruct (EA _ H1) as [E1 E2]. rewrite E1, E2.
+    inversion H3 as [ | ? ? Hv _]; subst. cbn [ownp] in Hv. rewrite Hv. cbn [andb negb].
     exists st. repeat split; auto using frame_refl.
   - (* OJmpUnless *)
     destruct (truthy (eval EFUEL (mkC r i L at_) (ia_env a) c)) as [[ | ] | ] eqn:Et; try discriminate Hs;
@@ -227,22 +270,22 @@ Proof.
   - (* OClear *) inversion Hs; subst. exists st. repeat split; auto using frame_refl.
 Qed.
 
-Lemma settle_log : forall fuel keq r sh a lg a' sh' ok lg',
-  settle fuel keq r i sh a lg = (a', sh', ok, lg') -> exists more, lg' = lg ++ more.
+Lemma settle_log : forall fuel keq sb r sh a lg a' sh' ok lg',
+  settle fuel keq sb r i sh a lg = (a', sh', ok, lg') -> exists more, lg' = lg ++ more.
 Proof.
-  induction fuel as [ | fuel IH]; intros keq r sh a lg a' sh' ok lg' H; simpl in H.
+  induction fuel as [ | fuel IH]; intros keq sb r sh a lg a' sh' ok lg' H; simpl in H.
   - inversion H. exists []. rewrite app_nil_r. reflexivity.
   - destruct (ia_ops a) as [ | o rest]; [inversion H; exists []; rewrite app_nil_r; reflexivity | ].
     destruct (is_visible o || is_driver o); [inversion H; exists []; rewrite app_nil_r; reflexivity | ].
-    destruct (silent keq r i sh a o rest) as [[[a1 sh1] l] | ]; [ | inversion H; exists []; rewrite app_nil_r; reflexivity].
+    destruct (silent keq sb r i sh a o rest) as [[[a1 sh1] l] | ]; [ | inversion H; exists []; rewrite app_nil_r; reflexivity].
     apply IH in H. destruct H as [more ->]. exists (l ++ more). rewrite app_assoc. reflexivity.
 Qed.
 
 Lemma settle_agree : forall fuel r a lg ct cc cp at_ st L a' ct' cc' cp' L' at' lg',
   agree st L -> uniform L ->
-  settle fuel keqk r i (mkSh ct cc cp L at_) a lg = (a', mkSh ct' cc' cp' L' at', true, lg') ->
+  settle fuel keqk false r i (mkSh ct cc cp L at_) a lg = (a', mkSh ct' cc' cp' L' at', true, lg') ->
   Forall ownp lg' ->
-  exists st', settle fuel key_eqb r i (mkSh ct cc cp st at_) a lg = (a', mkSh ct' cc' cp' st' at', true, lg') /\
+  exists st', settle fuel key_eqb true r i (mkSh ct cc cp st at_) a lg = (a', mkSh ct' cc' cp' st' at', true, lg') /\
               agree st' L' /\ uniform L' /\ frame st st'.
 Proof.
   induction fuel as [ | fuel IH]; intros r a lg ct cc cp at_ st L a' ct' cc' cp' L' at' lg' Ha Hu H Hl; simpl in H |- *.
@@ -251,8 +294,8 @@ Proof.
     + inversion H; subst. exists st. repeat split; auto using frame_refl.
     + destruct (is_visible o || is_driver o).
       * inversion H; subst. exists st. repeat split; auto using frame_refl.
-      * destruct (silent keqk r i (mkSh ct cc cp L at_) a o rest) as [[[a1 [ct1 cc1 cp1 L1 at1]] l] | ] eqn:Es; [ | inversion H].
-        destruct (settle_log _ _ _ _ _ _ _ _ _ _ H) as [more Hm].
+      * destruct (silent keqk false r i (mkSh ct cc cp L at_) a o rest) as [[[a1 [ct1 cc1 cp1 L1 at1]] l] | ] eqn:Es; [ | inversion H].
+        destruct (settle_log _ _ _ _ _ _ _ _ _ _ _ H) as [more Hm].
         assert (Hl1 : Forall ownp l). { subst lg'. apply Forall_app_l in Hl. apply Forall_app_r in Hl. exact Hl. }
         destruct (silent_agree _ _ _ _ _ _ _ _ _ _ _ _ _ _ _ _ _ Ha Hu Es Hl1) as (st1 & E1 & Ha1 & Hu1 & Hf1).
         rewrite E1.
@@ -261,29 +304,29 @@ Proof.
 Qed.
 
 Local Opaque SFUEL.
-Lemma run1_log : forall fuel keq r sh a lg a' sh' eff lg',
-  run1 fuel keq r i sh a lg = (a', sh', eff, lg') -> exists more, lg' = lg ++ more.
+Lemma run1_log : forall fuel keq sb r sh a lg a' sh' eff lg',
+  run1 fuel keq sb r i sh a lg = (a', sh', eff, lg') -> exists more, lg' = lg ++ more.
 Proof.
-  induction fuel as [ | fuel IH]; intros keq r sh a lg a' sh' eff lg' H; simpl in H.
+  induction fuel as [ | fuel IH]; intros keq sb r sh a lg a' sh' eff lg' H; simpl in H.
   - inversion H. exists []. rewrite app_nil_r. reflexivity.
   - destruct (ia_ops a) as [ | o rest]; [inversion H; exists []; rewrite app_nil_r; reflexivity | ].
     destruct (is_visible o).
     + destruct (visible r i sh a o rest) as [[[a1 sh1] e1] l1].
-      destruct (settle SFUEL keq r i sh1 a1 (lg ++ l1)) as [[[a2 sh2] ok] l2] eqn:Es.
+      destruct (settle SFUEL keq sb r i sh1 a1 (lg ++ l1)) as [[[a2 sh2] ok] l2] eqn:Es.
       apply settle_log in Es. destruct Es as [more ->]. inversion H; subst.
       exists (l1 ++ more). rewrite app_assoc. reflexivity.
     + destruct (expand o).
       * eapply IH; eauto.
-      * destruct (silent keq r i sh a o rest) as [[[a1 sh1] l] | ]; [ | inversion H; exists []; rewrite app_nil_r; reflexivity].
+      * destruct (silent keq sb r i sh a o rest) as [[[a1 sh1] l] | ]; [ | inversion H; exists []; rewrite app_nil_r; reflexivity].
         apply IH in H. destruct H as [more ->]. exists (l ++ more). rewrite app_assoc. reflexivity.
 Qed.
 
 (** THE LOCALITY THEOREM: a step of actor i that does not crash and only touches own entries *)
 Theorem run1_agree : forall fuel r a lg ct cc cp at_ st L a' ct' cc' cp' L' at' eff lg',
   agree st L -> uniform L ->
-  run1 fuel keqk r i (mkSh ct cc cp L at_) a lg = (a', mkSh ct' cc' cp' L' at', eff, lg') ->
+  run1 fuel keqk false r i (mkSh ct cc cp L at_) a lg = (a', mkSh ct' cc' cp' L' at', eff, lg') ->
   eff <> ICrash -> Forall ownp lg' ->
-  exists st', run1 fuel key_eqb r i (mkSh ct cc cp st at_) a lg = (a', mkSh ct' cc' cp' st' at', eff, lg') /\
+  exists st', run1 fuel key_eqb true r i (mkSh ct cc cp st at_) a lg = (a', mkSh ct' cc' cp' st' at', eff, lg') /\
               agree st' L' /\ uniform L' /\ frame st st'.
 Proof.
   induction fuel as [ | fuel IH]; intros r a lg ct cc cp at_ st L a' ct' cc' cp' L' at' eff lg' Ha Hu H Hne Hl;
@@ -294,10 +337,10 @@ Proof.
     + destruct (is_visible o) eqn:Ev.
       * (* the visible action *)
         destruct (visible r i (mkSh ct cc cp L at_) a o rest) as [[[a1 [ct1 cc1 cp1 L1 at1]] e1] l1] eqn:Evis.
-        destruct (settle SFUEL keqk r i (mkSh ct1 cc1 cp1 L1 at1) a1 (lg ++ l1)) as [[[a2 sh2] ok] l2] eqn:Es.
+        destruct (settle SFUEL keqk false r i (mkSh ct1 cc1 cp1 L1 at1) a1 (lg ++ l1)) as [[[a2 sh2] ok] l2] eqn:Es.
         destruct ok; [ | inversion H; subst; congruence].
         injection H as Ea Esh Eeff Elg. subst a2 sh2 e1 l2.
-        destruct (settle_log _ _ _ _ _ _ _ _ _ _ Es) as [more Hm].
+        destruct (settle_log _ _ _ _ _ _ _ _ _ _ _ Es) as [more Hm].
         assert (Hl1 : Forall ownp l1). { subst lg'. apply Forall_app_l in Hl. apply Forall_app_r in Hl. exact Hl. }
         assert (Evis' : visible r i (mkSh ct cc cp st at_) a o rest = (a1, mkSh ct1 cc1 cp1 st at1, eff, l1) /\ L1 = L).
         { unfold visible in *. destruct o; try discriminate Ev.
@@ -305,15 +348,15 @@ Proof.
               injection Evis as <- <- <- <- <- <- <- <-; split; reflexivity.
           - unfold ctx_of in *. cbn [sh_st sh_attrs] in *.
             injection Evis as <- <- <- <- <- <- <- <-.
-            destruct (eval_agree r st L at_ Ha EFUEL (ia_env a) e Hl1) as [E1 E2]. rewrite E1, E2. split; reflexivity. }
+            destruct (eval_agree r st L at_ Ha EFUEL (ia_env a) e (ownp_lks _ Hl1)) as [E1 E2]. rewrite E1, E2. split; reflexivity. }
         destruct Evis' as [Evis' ->]. rewrite Evis'.
         destruct (settle_agree _ _ _ _ _ _ _ _ _ _ _ _ _ _ _ _ _ Ha Hu Es Hl) as (st2 & E2 & Ha2 & Hu2 & Hf2).
         rewrite E2. exists st2. repeat split; auto.
       * destruct (expand o) as [l | ].
         -- eapply IH; eauto.
-        -- destruct (silent keqk r i (mkSh ct cc cp L at_) a o rest) as [[[a1 [ct1 cc1 cp1 L1 at1]] l] | ] eqn:Es;
+        -- destruct (silent keqk false r i (mkSh ct cc cp L at_) a o rest) as [[[a1 [ct1 cc1 cp1 L1 at1]] l] | ] eqn:Es;
              [ | inversion H; subst; congruence].
-           destruct (run1_log _ _ _ _ _ _ _ _ _ _ H) as [more Hm].
+           destruct (run1_log _ _ _ _ _ _ _ _ _ _ _ H) as [more Hm].
            assert (Hl1 : Forall ownp l). { subst lg'. apply Forall_app_l in Hl. apply Forall_app_r in Hl. exact Hl. }
            destruct (silent_agree _ _ _ _ _ _ _ _ _ _ _ _ _ _ _ _ _ Ha Hu Es Hl1) as (st1 & E1 & Ha1 & Hu1 & Hf1).
            rewrite E1.
@@ -356,12 +399,12 @@ Qed.
 
 (** the device: the step computed in the store where all keys of a kind are one *)
 Definition dev (r : Z) (i : nat) (ct cc cp : Z) (vt vn : list (option value)) (a : iactor) : iactor * shared * ieff * klog :=
-  run1 RFUEL keqk r i (mkSh ct cc cp (Lof vt vn) []) a [].
+  run1 RFUEL keqk false r i (mkSh ct cc cp (Lof vt vn) []) a [].
 
 Lemma step_via_device r i t ct cc cp st a a' ct' cc' cp' L' at' eff lg :
-  run1 RFUEL keqk r i (mkSh ct cc cp (Lof (view st (KTask i)) (view st (KNum t))) []) a [] = (a', mkSh ct' cc' cp' L' at', eff, lg) ->
+  run1 RFUEL keqk false r i (mkSh ct cc cp (Lof (view st (KTask i)) (view st (KNum t))) []) a [] = (a', mkSh ct' cc' cp' L' at', eff, lg) ->
   eff <> ICrash -> Forall (ownp i t) lg ->
-  exists st', run1 RFUEL key_eqb r i (mkSh ct cc cp st []) a [] = (a', mkSh ct' cc' cp' st' at', eff, lg) /\
+  exists st', run1 RFUEL key_eqb true r i (mkSh ct cc cp st []) a [] = (a', mkSh ct' cc' cp' st' at', eff, lg) /\
      view st' (KTask i) = view L' (KTask 0) /\ view st' (KNum t) = view L' (KNum 0) /\ frame i t st st'.
 Proof.
   intros Hd Hne Hl.
@@ -450,7 +493,9 @@ Ltac vm_lhs :=
 
 Ltac own_log :=
   repeat (apply Forall_cons || apply Forall_nil);
-  (split; [simpl; tauto | (left; reflexivity) || (right; reflexivity)]).
+  cbn [ownp];
+  first [ split; [simpl; tauto | (left; reflexivity) || (right; reflexivity)]
+        | cbn [veqb truthy]; rewrite ?Z.eqb_refl, ?Nat.eqb_refl, ?String.eqb_refl; reflexivity ].
 
 Definition eff_ok (eff : effect) (ieff : ieff) (ct cc cp ct' cc' cp' : Z) : Prop :=
   match eff with
@@ -465,7 +510,7 @@ Definition eff_ok (eff : effect) (ieff : ieff) (ct cc cp ct' cc' cp' : Z) : Prop
 Ltac devstep r i t ct cc cp st HT HN :=
   let st' := fresh "st'" in let E := fresh "E" in let V1 := fresh "V1" in let V2 := fresh "V2" in let Hf := fresh "Hf" in
   lazymatch goal with
-  | |- exists _ _ _ _ _ _ _, run1 _ _ _ _ _ ?K _ = _ /\ _ =>
+  | |- exists _ _ _ _ _ _ _, run1 _ _ _ _ _ _ ?K _ = _ /\ _ =>
       edestruct (step_via_device r i t ct cc cp st K) as (st' & E & V1 & V2 & Hf)
   end;
   [ rewrite HT, HN; vm_lhs | discriminate | own_log | ];
@@ -481,7 +526,7 @@ Lemma local_step r i a ia st ct cc cp a' eff :
   Ract r i a ia st -> view st (KNum ct) = NONE ->
   astep r ct cc cp a = (a', eff) ->
   exists ia' st' ct' cc' cp' ieff lg,
-    run1 RFUEL key_eqb r i (mkSh ct cc cp st []) ia [] = (ia', mkSh ct' cc' cp' st' [], ieff, lg) /\
+    run1 RFUEL key_eqb true r i (mkSh ct cc cp st []) ia [] = (ia', mkSh ct' cc' cp' st' [], ieff, lg) /\
     Ract r i a' ia' st' /\ frame i (a_t a') st st' /\ eff_ok eff ieff ct cc cp ct' cc' cp'.
 Proof.
   intros (h & HK & HT & HN) Hfresh Hst. destruct a as [pc t c p]. destruct h as [hfid hinfo htxt].
@@ -765,28 +810,37 @@ Fixpoint oeval (n : nat) (hk : string -> value) (r : Z) (e : env) (x : expr) : v
     end
   end.
 
-Record gres := mkGR { gr_env : env; gr_puts : list value; gr_after : bool; gr_raised : bool }.
+(** [gr_sets]: the entries of dicts / sets written (Some v) or removed (None), latest first *)
+Record gres := mkGR { gr_env : env; gr_puts : list value; gr_after : bool; gr_raised : bool;
+                      gr_sets : list (string * value * option value) }.
 
 Fixpoint gexec (thrown : bool) (sent : value) (hk : bool -> string -> value) (r : Z) (s : stmt) (g : gres) : gres :=
   if gr_raised g then g else
+  let ev := oeval EFUEL (hk (gr_after g)) r (gr_env g) in
   match s with
   | SSkip => g
   | SSeq a b => gexec thrown sent hk r b (gexec thrown sent hk r a g)
-  | SLet x e => mkGR (eset (gr_env g) x (oeval EFUEL (hk (gr_after g)) r (gr_env g) e)) (gr_puts g) (gr_after g) false
-  | SPut e => mkGR (gr_env g) (gr_puts g ++ [oeval EFUEL (hk (gr_after g)) r (gr_env g) e]) (gr_after g) false
+  | SLet x e => mkGR (eset (gr_env g) x (ev e)) (gr_puts g) (gr_after g) false (gr_sets g)
+  | SPut e => mkGR (gr_env g) (gr_puts g ++ [ev e]) (gr_after g) false (gr_sets g)
   | SYield x =>
       if gr_after g then g                                  (* the second yield: the `with` block is left *)
-      else if thrown then mkGR (gr_env g) (gr_puts g) true true
-      else mkGR (match x with Some v => eset (gr_env g) v sent | None => gr_env g end) (gr_puts g) true false
+      else if thrown then mkGR (gr_env g) (gr_puts g) true true (gr_sets g)
+      else mkGR (match x with Some v => eset (gr_env g) v sent | None => gr_env g end) (gr_puts g) true false (gr_sets g)
   | STry a b =>
       let g1 := gexec thrown sent hk r a g in
-      let g2 := gexec thrown sent hk r b (mkGR (gr_env g1) (gr_puts g1) (gr_after g1) false) in
-      mkGR (gr_env g2) (gr_puts g2) (gr_after g2) (gr_raised g1 || gr_raised g2)
-  | _ => mkGR (gr_env g) (gr_puts g ++ [VBad]) (gr_after g) true
+      let g2 := gexec thrown sent hk r b (mkGR (gr_env g1) (gr_puts g1) (gr_after g1) false (gr_sets g1)) in
+      mkGR (gr_env g2) (gr_puts g2) (gr_after g2) (gr_raised g1 || gr_raised g2) (gr_sets g2)
+  | SSetAdd m k => mkGR (gr_env g) (gr_puts g) (gr_after g) false ((m, ev k, Some (VBool true)) :: gr_sets g)
+  | SMapSet m k v => mkGR (gr_env g) (gr_puts g) (gr_after g) false ((m, ev k, Some (ev v)) :: gr_sets g)
+  | SSetRemove m k | SMapDel m k => mkGR (gr_env g) (gr_puts g) (gr_after g) false ((m, ev k, None) :: gr_sets g)
+  | _ => mkGR (gr_env g) (gr_puts g ++ [VBad]) (gr_after g) true (gr_sets g)
   end.
 
+Definition gen_res (thrown : bool) (sent : value) (hk : bool -> string -> value) (r : Z) (f : func) (args : list value) : gres :=
+  gexec thrown sent hk r (f_body f) (mkGR (combine (f_params f) args) [] false false []).
+
 Definition gen_run (thrown : bool) (sent : value) (hk : bool -> string -> value) (r : Z) (f : func) (args : list value) : list value :=
-  gr_puts (gexec thrown sent hk r (f_body f) (mkGR (combine (f_params f) args) [] false false)).
+  gr_puts (gen_res thrown sent hk r f args).
 
 (** class and numbers of an event *)
 Definition nums (v : value) : string * list value :=
@@ -821,6 +875,28 @@ Theorem tie_end_prompt_command : forall sent hk r pn txt,
     = [None; Some (VStr "")].
 Proof. intros; split; reflexivity. Qed.
 
+(** TraceCallHandler.on_trace_call: what it records on entry (the trace is on a trace call; its
+    TraceCallInfo) it removes in `finally` -- whether the trace function returns or raises, and under the
+    key read at ENTRY: every dict / set it wrote under that key ends removed, nothing else is touched *)
+Definition last_write (sets : list (string * value * option value)) (m : string) : option (value * option value) :=
+  match filter (fun e => String.eqb (fst (fst e)) m) sets with
+  | (_, k, v) :: _ => Some (k, v)
+  | [] => None
+  end.
+
+Theorem tie_handler_removes_in_finally : forall thrown sent hk r tci,
+  let g := gen_res thrown sent hk r f_TraceCallHandler_on_trace_call [tci] in
+  let names := dedup (map (fun e => fst (fst e)) (gr_sets g)) in
+  gr_puts g = [] /\ names <> [] /\
+  forallb (fun m => match last_write (gr_sets g) m with
+                    | Some (_, None) => true
+                    | _ => false end) names = true /\
+  map (fun e => snd (fst e)) (gr_sets g) = map (fun _ => hk false "current_trace_no") (gr_sets g) /\
+  (* on entry both the membership and the info are recorded *)
+  List.length (filter (fun e => match snd e with Some _ => true | None => false end) (gr_sets g)) =
+  List.length (filter (fun e => match snd e with Some _ => false | None => true end) (gr_sets g)).
+Proof. intros [ | ] sent hk r tci; vm_compute; repeat split; try reflexivity; discriminate. Qed.
+
 (** ---- (2) the counters: ONE object per run for each of the three kinds of number, first value 1 *)
 Theorem tie_counters_per_run :
   counter_decl CTrace = (PerRun, 1) /\ counter_decl CCall = (PerRun, 1) /\ counter_decl CPrompt = (PerRun, 1) /\
@@ -849,7 +925,7 @@ Proof.
 Qed.
 
 Lemma hook_eval_local r i t st h :
-  Forall (ownp i t) (ekeys EFUEL (mkC r i (Lof (view st (KTask i)) (view st (KNum t))) []) [] (EHook h)) ->
+  Forall (ownk i t) (ekeys EFUEL (mkC r i (Lof (view st (KTask i)) (view st (KNum t))) []) [] (EHook h)) ->
   eval EFUEL (mkC r i st []) [] (EHook h) = eval EFUEL (mkC r i (Lof (view st (KTask i)) (view st (KNum t))) []) [] (EHook h).
 Proof. intros H. apply (eval_agree i t r st _ [] (agree_Lof i t st) EFUEL [] (EHook h) H). Qed.
 
@@ -874,9 +950,9 @@ Qed.
     NOT on a trace call of its own (whatever the others are on) is refused -- the whole of
     CustomizedPdb.cmdloop() runs through without a visible action and without reading a command *)
 Lemma settle_via_device r i t ct cc cp st a a' ct' cc' cp' L' at' lg :
-  settle SFUEL keqk r i (mkSh ct cc cp (Lof (view st (KTask i)) (view st (KNum t))) []) a [] = (a', mkSh ct' cc' cp' L' at', true, lg) ->
+  settle SFUEL keqk false r i (mkSh ct cc cp (Lof (view st (KTask i)) (view st (KNum t))) []) a [] = (a', mkSh ct' cc' cp' L' at', true, lg) ->
   Forall (ownp i t) lg ->
-  exists st', settle SFUEL key_eqb r i (mkSh ct cc cp st []) a [] = (a', mkSh ct' cc' cp' st' at', true, lg) /\
+  exists st', settle SFUEL key_eqb true r i (mkSh ct cc cp st []) a [] = (a', mkSh ct' cc' cp' st' at', true, lg) /\
      view st' (KTask i) = view L' (KTask 0) /\ view st' (KNum t) = view L' (KNum 0) /\ frame i t st st'.
 Proof.
   intros Hd Hl.
@@ -892,7 +968,7 @@ Definition stray_cmdloop (ps : list prompt) (k : list item) : iactor :=
 Theorem tie_stray_cmdloop_refused r ps sched i a k qs :
   nth_error (s_actors (fst (run r (init_sys ps) sched))) i = Some a -> a_pc a = AIdle k ->
   let sh := is_sh (fst (irun r (iinit ps) sched)) in
-  exists sh' lg, settle SFUEL key_eqb r i sh (stray_cmdloop qs k) [] = (K_idle k, sh', true, lg) /\
+  exists sh' lg, settle SFUEL key_eqb true r i sh (stray_cmdloop qs k) [] = (K_idle k, sh', true, lg) /\
                  view (sh_st sh') (KTask i) = view (sh_st sh) (KTask i) /\ view (sh_st sh') (KNum (a_t a)) = view (sh_st sh) (KNum (a_t a)).
 Proof.
   intros Ha Hpc sh. destruct (reach r ps sched i a Ha) as (ia & _ & (h & _ & HT & HN) & Hat).
